@@ -3,6 +3,7 @@ package vh
 import (
 	sshkey "github.com/theparanoids/ysshra/sshutils/key"
 	"context"
+	"io"
 	"crypto/rand"
 	"crypto/x509"
 	"encoding/json"
@@ -126,6 +127,16 @@ func (ca *FakeCA) Sign(ctx context.Context, req *proto.SSHCertificateSigningRequ
 			return nil, nil, gensign.NewErrWithMsg(gensign.ErrorType(200), b.Err)
 		case "zero":
 			return nil, nil, gensign.NewErrWithMsg(gensign.ErrorType(0), b.Err)
+		case "deadline": // the CA client gave up on its OWN per-try deadline (the run's context is still alive)
+			return nil, nil, fmt.Errorf("%s: %w", b.Err, context.DeadlineExceeded)
+		case "canceled":
+			return nil, nil, fmt.Errorf("%s: %w", b.Err, context.Canceled)
+		case "eof":
+			return nil, nil, io.EOF
+		case "typed-signer": // a decorating signer that already classified its failure
+			return nil, nil, gensign.NewErrWithMsg(gensign.SignerSignErr, b.Err)
+		case "typed-conf":
+			return nil, nil, gensign.NewErrorWithMsg(gensign.HandlerConfErr, "decorator", b.Err)
 		}
 		return nil, nil, errors.New(b.Err)
 	}
@@ -474,6 +485,12 @@ func (h *FakeHandler) Authenticate(p *csr.ReqParam) error {
 		return errors.New("verif: rejected (untyped error)")
 	case "panic-typed":
 		return gensign.NewErrorWithMsg(gensign.Panic, h.Name(), "verif: rejected with a panic-typed error")
+	case "nocause": // a typed error without a wrapped cause (the constructor documents the cause as optional)
+		return gensign.NewError(gensign.HandlerAuthN, h.Name())
+	case "nocause-nameless":
+		return gensign.NewErr(gensign.HandlerDisabled)
+	case "nilcause":
+		return gensign.NewError(gensign.InvalidParams, h.Name(), nil)
 	}
 	return gensign.NewErrorWithMsg(gensign.HandlerAuthN, h.Name(), "verif: rejected")
 }
